@@ -58,6 +58,9 @@ func fillMsg(r *rand.Rand, m protoreflect.Message, p float64, depth int, skip ma
 				if fd.Name() == "identifiers" {
 					v = pick(r, purlPool)
 				}
+				if r.Intn(10) == 0 {
+					v = "" // an entry with an empty value is still an entry
+				}
 				mp.Set(k, protoreflect.ValueOfString(v))
 			}
 		case fd.IsList():
